@@ -12,6 +12,7 @@ Lemma plumbing_sources :
   /\ ds_select_final_set_keep = ["_time_keep"; "_freq_keep"; "_corrprod_keep"; "_weights_keep"; "_flags_keep"]%string
   /\ concat_super_set_keep_args = ["time_keep"; "freq_keep"; "corrprod_keep"; "weights_keep"; "flags_keep"]%string
   /\ concat_member_keep_args = [("weights_keep", "self._weights_keep"); ("flags_keep", "self._flags_keep")]%string
+  /\ set_keep_overridden_by = ["VisibilityDataV4"]%string
   /\ concat_data_from_members = ["vis"; "weights"; "flags"]%string
   /\ concat_init_ends_with_select = true
   /\ flag_setter_flip = [("v4", (true, true)); ("v3", (true, true)); ("v2", (false, false))]%string
